@@ -76,6 +76,25 @@ class Ctx:
         return f
 
 
+def _thorough_obligations(prop, prog, ctx):
+    """self-test of the property's rules, both ways (see sa/selftest.py)"""
+    import importlib
+    from . import selftest
+    spec = importlib.import_module(f"spec.{prop}")
+
+    def sens(c):
+        selftest.sensitivity(c, spec, prop, prog.repo)
+
+    def spec_(c):
+        mods = sorted({q.split(".")[0] for q in c.analysed_functions}) or sorted({q.split(".")[0] for q in getattr(spec, "TWIN_MODULES", [])})
+        files = [f"cryocat/{m}.py" for m in mods]
+        selftest.specificity(c, spec, prop, prog.repo, files, skip=getattr(spec, "TWIN_SKIP", ()))
+
+    n_seeds = len(selftest.seeds_for(prop))
+    return [Obligation("S.sens", "self-test: every stored, confirmed property-breaking change is still reported", sens, floor=min(1, n_seeds), tier="thorough"),
+            Obligation("S.spec", "self-test: behaviour-preserving twins of the analysed modules raise no alarm", spec_, floor=1, tier="thorough")]
+
+
 def load_known():
     if not os.path.exists(KNOWN):
         return []
@@ -93,6 +112,10 @@ def run_property(prop, title, obligations, prog, tier, explanation, assumptions,
     violations = []
     known_hits = []
     errors = []
+    if tier == "thorough":
+        from . import terms as _tm
+        _tm.N_MULT = 6
+        obligations = list(obligations) + _thorough_obligations(prop, prog, ctx)
     for ob in obligations:
         if ob.tier == "thorough" and tier != "thorough":
             continue
